@@ -7,7 +7,7 @@ RTP, advertising data, addresses, UUIDs (including the process-wide registry as 
 """
 import struct
 
-from vf.e1 import harness, registered
+from vf.e1 import harness, registered, untraced, concrete as C
 from vf import flags as _flags
 from vf import gencodec
 
@@ -117,14 +117,35 @@ def rfcomm_uih_rt(dlci: int, cr: int, e0: int, e1: int, credits: int, n: int, pf
     return (g.type, g.c_r, g.dlci, g.p_f, g.information) == (rfcomm.FrameType.UIH, cr, dlci, pf, info) and bytes(g) == raw
 
 
-@harness(pre=['0 <= t <= 63 and 0 <= cr <= 1 and 0 <= d0 <= 255 and 0 <= d1 <= 255'], family='rfcomm', grid={'n': [0, 1, 2, 8, 127]},
+@harness(pre=['0 <= t <= 63 and 0 <= cr <= 1 and 0 <= d0 <= 255 and 0 <= d1 <= 255'], family='rfcomm', grid={'n': [0, 1, 2, 8, 127, 128, 129, 300]},
          kernels=('bumble.rfcomm.RFCOMM_Frame.make_mcc', 'bumble.rfcomm.RFCOMM_Frame.parse_mcc'),
-         bounds='RFCOMM MCC: type 6 bit, c/r, value lengths 0,1,2,8,127 with symbolic edge bytes')
+         bounds='RFCOMM MCC: type 6 bit, c/r, value lengths 0,1,2,8,127 and 128,129,300 (two-octet length indicator) with symbolic edge bytes: value and type survive, the length octets are the TS 07.10 encoding')
 def rfcomm_mcc_rt(t: int, cr: int, d0: int, d1: int, n: int) -> bool:
     value = _info(n, d0, d1)
     raw = rfcomm.RFCOMM_Frame.make_mcc(t, cr, value)
     t2, cr2, v2 = rfcomm.RFCOMM_Frame.parse_mcc(raw)
-    return t2 == t and int(cr2) == cr and v2 == value and raw[1] == n * 2 + 1
+    if n < 128:
+        enc_ok = raw[1] == n * 2 + 1 and len(raw) == 2 + n
+    else:
+        enc_ok = raw[1] == (n % 128) * 2 and raw[2] == n // 128 and len(raw) == 3 + n
+    return t2 == t and int(cr2) == cr and v2 == value and enc_ok
+
+
+@harness(pre=['0 <= x0 <= 255 and 0 <= x1 <= 255 and 0 <= x2 <= 255 and 0 <= n <= 3'], family='unknown-codes', twin=True, grid={'proto': ['smp', 'att', 'l2capsig']},
+         kernels=('bumble.smp.SMP_Command.from_bytes', 'bumble.att.ATT_PDU.from_bytes', 'bumble.l2cap.L2CAP_Control_Frame.from_bytes'),
+         bounds='a PDU whose code byte has no registered class (SMP 0x7E / ATT 0x7E / L2CAP signalling 0x7E), 0..3 symbolic parameter bytes (L2CAP: consistent length field): bytes -> generic object -> bytes is the identity')
+def unknown_code_rt(x0: int, x1: int, x2: int, n: int, proto: str) -> bool:
+    from bumble import smp as _smp, att as _att, l2cap as _l2
+    n = C(n, 0, 3)
+    body = _B(x0, x1, x2)[:n]
+    if proto == 'smp':
+        raw = bytes([0x7E]) + body
+        return bytes(_smp.SMP_Command.from_bytes(raw)) == raw
+    if proto == 'att':
+        raw = bytes([0x7E]) + body
+        return bytes(_att.ATT_PDU.from_bytes(raw)) == raw
+    raw = bytes([0x7E, 9, n, 0]) + body
+    return bytes(_l2.L2CAP_Control_Frame.from_bytes(raw)) == raw
 
 
 @harness(pre=['0 <= x0 <= 255 and 0 <= x1 <= 255 and 0 <= x2 <= 255 and 0 <= x3 <= 255 and 0 <= x4 <= 255 and 0 <= x5 <= 255 and 0 <= x6 <= 255 and 0 <= x7 <= 7'],
@@ -462,9 +483,125 @@ def avctp_single_rt(label: int, cr: int, ipid: int, pid: int, d0: int, d1: int, 
     return got == [(label, cr == 0, bool(ipid), pid, payload)]
 
 
+# ------------------------------------------------------------------------------------------
+# byte-sweep conditions for the small hand-coded codecs (AV/C frames, A2DP codec information, typed advertising
+# data): for a canonical template every byte position in turn is symbolic 0..255 (split by solver forks: these
+# codecs build enum/flag members and format strings, which realise), the other bytes keep the template's value.
+def _sweep_ok(parse, ser, data, template):
+    """bytes -> object -> bytes -> object.  Input the parser refuses is not well-formed (fine).  The canonical
+    template itself must re-serialise to exactly its bytes.  A swept byte may make the input non-canonical
+    (reserved bits, a length byte that no longer matches): then the parser's reading is what counts - its
+    serialisation must be a fixed point (parse and serialise agree on every field)."""
+    try:
+        o = parse(data)
+    except RecursionError:
+        return False
+    except Exception:
+        return data != template
+    b = ser(o)
+    if data == template and b != data:
+        return False
+    try:
+        o2 = parse(b)
+    except Exception:
+        return False
+    return ser(o2) == b and (o == o2 or type(o).__eq__ is object.__eq__)
+
+
+def _make_sweep(parse, ser, t, pos):
+    def f(x: int) -> bool:
+        x = C(x, 0, 255)
+        with untraced():
+            return _sweep_ok(parse, ser, t[:pos] + bytes([x]) + t[pos + 1:], t)
+    return f
+
+
+def _sweep_conditions():
+    from bumble import avc, a2dp, data_types, core as bcore, avrcp
+    from vf.e1 import Cond
+    out = []
+
+    def add(name, parse, ser, templates, family, kernels, strict_from=0, quick_every=1):
+        for ti, t in enumerate(templates):
+            for pos in range(strict_from, len(t)):
+                f = _make_sweep(parse, ser, t, pos)
+                f.__name__ = f'{name}_t{ti}_b{pos}'
+                f.__module__ = __name__
+                tiers = ('quick', 'thorough') if (ti * 31 + pos) % quick_every == 0 else ('thorough',)
+                out.append(Cond(name=f'sweep_{name}_t{ti}_b{pos}', fn=f, pre=['0 <= x <= 255'], fixed={}, family=family, tiers=tiers, kernels=kernels, timeout=(40, 120),
+                                bounds=f'{name}: canonical template {ti} ({len(t)} bytes) with byte {pos} replaced by every value 0..255: the template itself re-serialises to exactly its bytes; for every other accepted input the serialisation of the parsed object is a fixed point of parse/serialise and parses back to an equal object'))
+
+    # AV/C frames: ctype/response nibble, subunit type and id, opcode, operands
+    avc_k = ('bumble.avc.Frame.from_bytes', 'bumble.avc.Frame.to_bytes', 'bumble.avc.VendorDependentFrame.parse_operands', 'bumble.avc.PassThroughFrame.parse_operands')
+    add('avc', avc.Frame.from_bytes, bytes,
+        [bytes.fromhex('0048000019581000000100'), bytes.fromhex('09487c4400'), bytes.fromhex('00487cc4021122'), bytes.fromhex('01ff3007ffffffff'), bytes.fromhex('0c4831ff'),
+         bytes.fromhex('0048001958200000051122334455')], 'avc', avc_k, quick_every=3)
+    # A2DP codec information elements
+    a2_k = ('bumble.a2dp.SbcMediaCodecInformation.from_bytes', 'bumble.a2dp.SbcMediaCodecInformation.__bytes__', 'bumble.a2dp.AacMediaCodecInformation.from_bytes',
+            'bumble.a2dp.AacMediaCodecInformation.__bytes__', 'bumble.a2dp.VendorSpecificMediaCodecInformation.from_bytes', 'bumble.a2dp.OpusMediaCodecInformation.from_bytes')
+    add('a2dp_sbc', a2dp.SbcMediaCodecInformation.from_bytes, bytes, [bytes.fromhex('21150235'), bytes.fromhex('ffff02fa')], 'a2dp', a2_k, quick_every=2)
+    add('a2dp_aac', a2dp.AacMediaCodecInformation.from_bytes, bytes, [bytes.fromhex('800180800000'), bytes.fromhex('40fffc83e8ff')], 'a2dp', a2_k, quick_every=2)
+    add('a2dp_vendor', a2dp.VendorSpecificMediaCodecInformation.from_bytes, bytes, [bytes.fromhex('e00000000100aabb')], 'a2dp', a2_k)
+    add('a2dp_opus', lambda d: a2dp.MediaCodecInformation.create(a2dp.CodecType.NON_A2DP, d), bytes, [bytes.fromhex('e0000000010092')], 'a2dp', a2_k, strict_from=6)
+    # typed advertising data structures: every DataType subclass, templates = lengths it accepts and reproduces
+    dt_k = ('bumble.data_types', 'bumble.core.AdvertisingData.from_bytes')
+    seen = []
+
+    def walk(c):
+        for sub in c.__subclasses__():
+            if sub.__module__ == 'bumble.data_types' and sub not in seen:
+                seen.append(sub)
+            walk(sub)
+    walk(bcore.DataType)
+    for cls in sorted(seen, key=lambda c: c.__name__):
+        if 'from_bytes' not in cls.__dict__ and not any('from_bytes' in b.__dict__ for b in cls.__mro__[1:-1] if b is not bcore.DataType):
+            continue
+        temps = []
+        for n in (1, 2, 3, 4, 6, 7, 8, 16, 18, 20):
+            t = bytes((0x21 + 7 * i) % 0x5A + 0x20 for i in range(n))
+            try:
+                if bytes(cls.from_bytes(t)) == t:
+                    temps.append(t)
+            except Exception:
+                pass
+            if len(temps) == 2:
+                break
+        if temps:
+            add(f'ad_{cls.__name__}', cls.from_bytes, bytes, [t for t in temps if len(t) <= 8][:2] or temps[:1], 'data-types', dt_k, quick_every=8)
+    return out
+
+
+def _items_blob(a0, a1, n_items):
+    """a GetFolderItems response body: status, UID counter, count, then folder items"""
+    from bumble import avrcp
+    items = [avrcp.FolderItem(folder_uid=0x0102030405060708 + k, folder_type=avrcp.FolderItem.FolderType.TITLES, is_playable=avrcp.FolderItem.Playable.PLAYABLE,
+                              character_set_id=avrcp.CharacterSetId.UTF_8, displayable_name='ab' + chr(0x41 + k)) for k in range(n_items)]
+    return items
+
+
+@harness(pre=['0 <= a0 <= 255 and 0 <= a1 <= 255 and 1 <= n <= 3'], family='avrcp-items', twin=True, timeout=(60, 200),
+         kernels=('bumble.avrcp.BrowseableItem.parse_from_bytes', 'bumble.avrcp.BrowseableItem.__bytes__', 'bumble.avrcp.GetFolderItemsResponse.from_parameters'),
+         bounds='GetFolderItemsResponse with 1..3 folder items (UID counter bytes symbolic): bytes -> response -> each parsed item re-serialises to exactly its own bytes, and a response rebuilt from the parsed items serialises to the original bytes')
+def avrcp_folder_items_rt(a0: int, a1: int, n: int) -> bool:
+    from bumble import avrcp
+    n = C(n, 1, 3)
+    items = _items_blob(a0, a1, n)
+    raw_items = [bytes(i) for i in items]
+    body = bytes([int(avrcp.StatusCode.OPERATION_COMPLETED), a0, a1, 0, n]) + b''.join(raw_items)
+    r = avrcp.Response.from_bytes(body, avrcp.PduId.GET_FOLDER_ITEMS)
+    if type(r) is not avrcp.GetFolderItemsResponse or len(r.items) != n or r.uid_counter != a0 * 256 + a1:
+        return False
+    for item, raw in zip(r.items, raw_items):
+        if bytes(item) != raw:
+            return False
+    r2 = avrcp.GetFolderItemsResponse(status=r.status, uid_counter=r.uid_counter, items=list(r.items))
+    return bytes(r2) == body
+
+
 def conditions():
     out = registered(__name__)
-    out += gencodec.conditions(['att', 'smp', 'l2capsig', 'avdtp'])
+    out += gencodec.conditions(['att', 'smp', 'l2capsig', 'avdtp', 'avrcpcmd', 'avrcprsp', 'avrcpevt'])
+    out += _sweep_conditions()
     return out
 
 
